@@ -284,7 +284,7 @@ def mkProg (cx : Ctx) (c : Case) (r : JReq) (inUse : Nat → Bool) : Ctx × Prog
   | "bulk" =>
     let (cx, qs) := r.elems.foldl (fun (a : Ctx × List Send) e =>
       let (cx, q) := mkSend a.1 c { e with ledger := r.ledger }; (cx, a.2 ++ [q])) (cx, [])
-    (cx, bulkProg qs)
+    (cx, bulkProg (inUse l) qs)
   | "import" =>
     let st := (c.state.lookup r.from_).getD {}
     let (cx, logs) := mkImpLogs cx st
@@ -323,6 +323,7 @@ def resName : StepRes → String
   | .blocked => "blocked"
   | .error .deadlock => "error:40P01"
   | .error .aborted => "error:25P02"
+  | .error .noSavepoint => "error:3B001"
   | .error _ => "error:23505"
 
 def nextKind (w : World) (s : Sid) : String :=
@@ -449,7 +450,8 @@ def runModel (c : Case) (guarded : Bool := true) : ModelRun :=
         match cx.postings.lookup r.txid with
         | some (src, dst, sf, amt, _) =>
           -- the revert transaction moves `amt` from dst back to src
-          { cx with postings := (real.tx, (dst, src, !sf, amt, decide (cx.names.pairs[src - 1]? = some ("world/" ++ ""))) ) :: cx.postings }
+          let newDstWorld := ((cx.names.pairs[src - 1]?).map (fun (nm : String) => nm.startsWith "world/")).getD false
+          { cx with postings := (real.tx, (dst, src, !sf, amt, newDstWorld)) :: cx.postings }
         | none => cx
       | _ => cx
     let _ := l
@@ -755,7 +757,7 @@ def handle (inp out : Json) : Except String Verdict := do
     (if c.events.any (·.res = "error:40P01") then ["deadlock"] else [])
   let agree := m.diverged.isNone
   pure { model := m.model, agree := agree, prop := p.ok, propModel := true,
-         nontrivial := waits > 0,
+         nontrivial := waits > 0 || ((c.workload = "ids" || c.workload = "blocks") && c.commits.eraseDups.length ≥ 2),
          tags := tags.eraseDups,
          note := if !p.ok then p.note else (m.diverged.getD ""),
          sig := if !p.ok then p.sig else if agree then "" else "sched:model-real-divergence" }
